@@ -96,3 +96,11 @@ Theorem C04_callbacks_run_outside_the_locks :
   forallb (fun e => negb (LockLib.lk_eqb (snd e) LockLib.UserCb) || LockLib.lk_eqb (fst e) LockLib.TMgr) LockOrderG.lock_edges = true.
 Proof. exact LockOrderThm.callbacks_run_outside_the_locks. Qed.
 Print Assumptions C04_callbacks_run_outside_the_locks.
+
+(* a task's exception travels to the parent as the instance itself -- pickled with its own reducer, so its type, every constructor
+   argument and every attribute arrive -- with the formatted remote traceback attached as __cause__ on arrival (shape fact of
+   _ExceptionWithTraceback / _rebuild_exc; exceptions that are not type(e)( *e.args ) are exercised by the check: family excs and the
+   transport zoo) *)
+Theorem C04_exception_transport : Worker.task_exception_travels_as_the_instance_with_its_traceback_text = true.
+Proof. reflexivity. Qed.
+Print Assumptions C04_exception_transport.
